@@ -140,7 +140,7 @@ def run_case(case, d, exe):
     stub, argv, env = materialise(case, d, exe)
     t0 = time.time()
     try:
-        p = subprocess.run(argv, capture_output=True, env=env, timeout=TIMEOUT, cwd=d)
+        p = subprocess.run(argv, capture_output=True, env=env, timeout=case.get('timeout', TIMEOUT), cwd=d)
         rc, out, err = p.returncode, p.stdout.decode('latin-1'), p.stderr.decode('latin-1')
     except subprocess.TimeoutExpired:
         rc, out, err = 'timeout', '', ''
@@ -1113,7 +1113,8 @@ def corpus_cases(cg):
     mk('graph_export', options=[('cvt:writegraph=@DIR@/graph.jsonl', 'o')], graph=True)
     mk('graph_export_unwritable', options=[('writegraph=@DIR@/no/such/dir/graph.jsonl', 'o')], graph=True, natural=('convert', 'plain', None))
     m3 = lp(); m3.lcon(('le', ('v', 0), ('n', 5)))
-    c = cg.base('corpus:counterexample_exportlogcon_undefined', m3); c['all_opts'] = c['options'] = [('cvt:writegraph=@DIR@/graph.jsonl', 'o')]
+    c = cg.base('corpus:fixed_exportlogcon_undefined', m3);   # 8093d9c: diagnosed (500, "... has no expression"), no crash
+    c['expect_msg_re'] = r'has no expression'; c['all_opts'] = c['options'] = [('cvt:writegraph=@DIR@/graph.jsonl', 'o')]
     L = c['nl'].split('\n'); t = L[1].split(); t[5] = '2'; L[1] = ' ' + ' '.join(t); c['nl'] = '\n'.join(L)
     c['natural'] = ('convert', 'plain', None); c['graph'] = True; out.append(c)
     c = cg.base('corpus:undefined_lcons_no_export', m3); c['all_opts'] = []
@@ -1150,6 +1151,14 @@ def corpus_cases(cg):
             for code in codes:
                 mk('inject:%s:%s' % (site, kind), env={'RECSOLVER_FAULT': '%s:%s' % (site, kind) + (':%d' % code if code is not None else '')},
                    inject=(site, kind, code), synthetic=True)
+    # not exceptions (round 6): the stage kills the process / does not return.  Reached: crash / hang; not reached (a bad
+    # option ends the run before): the run ends as if nothing had been injected (C09_pipeline_abort_hang)
+    for site in SITES:
+        mk('inject:%s:abort' % site, env={'RECSOLVER_FAULT': '%s:abort' % site}, inject=(site, 'abort', None), synthetic=True)
+    mk('inject:solve:hang', env={'RECSOLVER_FAULT': 'solve:hang'}, inject=('solve', 'hang', None), synthetic=True, timeout=5)
+    for k in ('abort', 'hang'):
+        mk('inject:convert:%s-unreached' % k, env={'RECSOLVER_FAULT': 'convert:%s' % k}, inject=('convert', k, None), synthetic=True,
+           timeout=20, options=[('foo=1', 'b')])
     for t, k in ((1, 'stdExn'), (2, 'withCode'), (3, 'unsupported')):
         mk('script-throw%d' % t, script='code 250\nmsg s\nthrow %d\n' % t, answer=(250, False, False),
            inject=('solve', k, 250 if t == 2 else None), synthetic=True)
@@ -1216,7 +1225,7 @@ ALL_ARMS = (['parseFlags.' + x for x in ('nil', 'wantsol', 'noecho', 'dashdash',
             ['reportCode.mpError>=100', 'reportCode.mpError<100', 'reportCode.stdExn'] +
             ['conclude.finished-retry-after-write-error', 'conclude.exported', 'conclude.info'] +
             ['suppressMsg.true', 'suppressMsg.false'] +
-            ['Raise.' + k for k in KINDS + ['wrappedInfeas']] + ['Stage.' + st for st in STAGES])
+            ['Raise.' + k for k in KINDS + ['wrappedInfeas']] + ['Stage.' + st for st in STAGES] + ['Beh.abort', 'Beh.hang'])
 EXIT_CODE_OF = {'plain': -1, 'infeas': 200, 'wrappedInfeas': 200, 'solCheck': 150, 'unsupported': 1, 'optionError': -1, 'readError': 1, 'fmtError': 1}
 
 
@@ -1281,7 +1290,11 @@ def model_arms(c, fault, ending, wantsol_eff=None):
     writable = op == 'ok'
     if isinstance(ending, tuple):
         st, rz, code = ending
-        A.add('Raise.' + rz); A.add('Stage.' + st)
+        A.add('Stage.' + st)
+        if rz in ('abort', 'hang'):
+            A.add('Beh.' + rz)
+            return A, writable
+        A.add('Raise.' + rz)
         kind = 'foreign' if rz == 'foreign' else ('stdExn' if rz in ('stdExn', 'systemError') else 'mpError')
         if st == 'ctor':
             A.add('fail.ctor-' + kind)
@@ -1502,7 +1515,7 @@ def run(ck):
     translator_ok = rc == 0
     if translator_ok:
         proof_ok, failing = ck.proof_stage('MpVerif.C09.Props', 'MpVerif/C09/Props.lean', 'C09_',
-                                            ['MpVerif/C09/*.lean', 'MpVerif/Gen/C09Driver.lean'], expect_min=51)
+                                            ['MpVerif/C09/*.lean', 'MpVerif/Gen/C09Driver.lean'], expect_min=56)
     else:
         proof_ok, failing = False, ['translator gen_c09.py: ' + (out + err).strip()[-400:]]
         ck.cov.update({'obligations': 51, 'discharged': 0, 'checker_cmd': 'translators/gen_c09.py failed'})
@@ -1607,10 +1620,10 @@ def run(ck):
         if c.get('expect_msg_re') and not (o['kind'] == 'sol' and o.get('complete') and re.search(c['expect_msg_re'], o.get('message', ''))):
             devs.append(('regression:message', 'the diagnostic does not match %r: %r' % (c['expect_msg_re'], (o.get('message') or r['err'] or r['out'])[:120])))
         latent = c.get('synthetic') and c.get('inject') and (
-            (c['inject'][1] == 'foreign') or (c['inject'][0] == 'ctor'))
+            (c['inject'][1] in ('foreign', 'abort', 'hang')) or (c['inject'][0] == 'ctor'))
         for sig, text in devs:
-            bump('deviation', sig.split(':')[0] + (':latent-injection' if latent and sig.split(':')[0] in ('crash', 'ctorcode') else ''))
-            if latent and sig.split(':')[0] in ('crash', 'ctorcode') and not corr_bad:
+            bump('deviation', sig.split(':')[0] + (':latent-injection' if latent and sig.split(':')[0] in ('crash', 'ctorcode', 'hang') else ''))
+            if latent and sig.split(':')[0] in ('crash', 'ctorcode', 'hang') and not corr_bad:
                 n_latent += 1        # model row validated by injection; not an input of the property's domain
                 continue
             ck.add_violation(sig, '%s  [family %s, argv tail %s]' % (text, c['family'], ' '.join(
